@@ -311,6 +311,8 @@ pub fn meta_receivers() -> BTreeMap<&'static str, RecvDesc> {
             ),
         ]),
     ));
+    add(recv("S17", Struct(vec![f("s", pm(5801)).skip()])));
+    add(recv("E5", Enum(vec![])));
     add(recv("N1", Struct(vec![f("inner", r("S1")), f("opt", opt(r("S1"))), f("d", r("S5")).dflt()])));
     add(recv("N2", Struct(vec![f("n1", r("N1")), f("p", pm(1301))])));
     add(recv("Rec", Struct(vec![f("child", opt(bx(r("Rec")))), f("leaf", opt(pm(1401)))])));
@@ -696,6 +698,7 @@ pub fn elem_receivers() -> BTreeMap<&'static str, ElemDesc> {
         container_post: Some((Post::Map, 5710)),
         ..elem("FR6", Field, vec!["a"], vec![f("p", pm(5701)), f("t", pm(5702)).dfn(5702).and_then(), f("sk", pm(5703)).skip()])
     });
+    add(ElemDesc { newtype_of: Some("AT1"), ..elem("AT4", Attributes, vec![], vec![]) });
     add(elem(
         "AT1",
         Attributes,
